@@ -24,6 +24,7 @@ repairs changed.  The one statement that is still false is "`single` always emit
 -/
 import AnnetModel.Lemmas.Vlan
 import AnnetModel.Lemmas.VlanIface
+import AnnetModel.Gen.IfaceLists
 
 /-! OBLIGATIONS
 Annet.Vlan.C11_expand_collapse_huawei
@@ -48,6 +49,7 @@ Annet.Vlan.C11_vlan_diff_never_removes_batched_vlan
 Annet.Vlan.C11_nexus_port_channel_member_exact
 Annet.Vlan.C11_not_member_is_plain_logic
 Annet.Vlan.C11_cisco_leaves_port_channel_false
+Annet.Vlan.C11_member_lists_as_modelled
 -/
 
 namespace Annet.Vlan
@@ -531,6 +533,21 @@ theorem C11_cisco_leaves_port_channel_false :
     cLeafIface (χ := Unit) .nexus .swtrunk false true false swOld swNew =
       .ok [⟨false, .w "no" :: (swP ++ [.w "remove", .spec [[20]]]), none⟩] :=
   cisco_leaves_port_channel_false
+
+
+/-- a `switchport trunk allowed vlan …` row starts with one of the given command prefixes (`str.startswith(tuple)`) -/
+def keepsSwitchportRows (prefixes : List String) : Bool :=
+  prefixes.any fun p => p.toList.isPrefixOf "switchport trunk allowed vlan 1".toList
+
+/-- THE MODEL'S TWO CONSTANTS ARE WHAT THE SOURCE SAYS (lists regenerated from the Python ASTs on every run,
+`Gen/IfaceLists.lean`): Cisco IOS does not keep a member's `switchport trunk allowed vlan` rows, NX-OS does
+(`switchportAllowedOnMember`), and NX-OS does not hide them from the old side when the port leaves its port-channel (so
+`cLeafIface .nexus` sees the old rows, as `C11_nexus_port_channel_member_exact` assumes). -/
+theorem C11_member_lists_as_modelled :
+    keepsSwitchportRows Annet.Gen.IfaceLists.ciscoAllowedOnChannel = switchportAllowedOnMember .cisco ∧
+    keepsSwitchportRows Annet.Gen.IfaceLists.nexusAllowedOnChannel = switchportAllowedOnMember .nexus ∧
+    keepsSwitchportRows Annet.Gen.IfaceLists.nexusHiddenFromOldOnLeave = false := by
+  decide +kernel
 
 
 end Annet.Vlan
